@@ -86,6 +86,35 @@ theorem rowBounds_attained (r : PRow) (bs : List Bnd) (hw : WfB bs) :
   have h2 := argHi_spec r.cs bs hw
   exact ⟨⟨_, h1.1, by rw [h1.2]⟩, ⟨_, h2.1, by rw [h2.2]⟩⟩
 
+/-- `A_min` / `A_max`: entry by entry they bound the term `c·x` of every in-box point … -/
+theorem aMinMax_entry : ∀ (cs xs : List Int) (bs : List Bnd) (j : Nat) (c x : Int), InBox xs bs →
+    cs[j]? = some c → xs[j]? = some x →
+    ∃ lo hi, (zipTerm tmin cs bs)[j]? = some lo ∧ (zipTerm tmax cs bs)[j]? = some hi ∧ lo ≤ c * x ∧ c * x ≤ hi
+  | [], _, _, _, _, _, _, hc, _ => by simp at hc
+  | _ :: _, [], _, _, _, _, _, _, hx => by simp at hx
+  | _ :: _, _ :: _, [], _, _, _, h, _, _ => by simp [InBox] at h
+  | c0 :: cs, x0 :: xs, b :: bs, 0, c, x, h, hc, hx => by
+      have ⟨h1, _⟩ : (b.lo ≤ x0 ∧ x0 ≤ b.hi) ∧ InBox xs bs := by simpa [InBox] using h
+      simp at hc hx; subst hc; subst hx
+      have t := term_bounds c0 b x0 h1.1 h1.2
+      rw [← tmin_eq_emin c0 b (by omega), ← tmax_eq_emax c0 b (by omega)] at t
+      exact ⟨_, _, by simp [zipTerm], by simp [zipTerm], t.1, t.2⟩
+  | c0 :: cs, x0 :: xs, b :: bs, j + 1, c, x, h, hc, hx => by
+      have ⟨_, h2⟩ : (b.lo ≤ x0 ∧ x0 ≤ b.hi) ∧ InBox xs bs := by simpa [InBox] using h
+      simp at hc hx
+      obtain ⟨lo, hi, a1, a2, a3, a4⟩ := aMinMax_entry cs xs bs j c x h2 hc hx
+      exact ⟨lo, hi, by simpa [zipTerm] using a1, by simpa [zipTerm] using a2, a3, a4⟩
+
+/-- … and their row sums are the quantities `reducable_rows` and `tighten_column_bounds` use. -/
+theorem aMin_row_sum : ∀ (cs : List Int) (bs : List Bnd), (zipTerm tmin cs bs).sum = sumMin cs bs
+  | [], _ => by simp [zipTerm, sumMin]
+  | _ :: _, [] => by simp [zipTerm, sumMin]
+  | c :: cs, b :: bs => by simp [zipTerm, sumMin, aMin_row_sum cs bs]
+theorem aMax_row_sum : ∀ (cs : List Int) (bs : List Bnd), (zipTerm tmax cs bs).sum = sumMax cs bs
+  | [], _ => by simp [zipTerm, sumMax]
+  | _ :: _, [] => by simp [zipTerm, sumMax]
+  | c :: cs, b :: bs => by simp [zipTerm, sumMax, aMax_row_sum cs bs]
+
 /-- non-vacuity: a system with a coefficient of magnitude 3 where the division rounds, and a solution -/
 example :
     let p : Poly := ⟨[⟨0, 5⟩, ⟨-2, 2⟩], [⟨4, [3, 1]⟩, ⟨-3, [-2, 0]⟩]⟩
